@@ -124,6 +124,40 @@ c.ensures('fresh-task-linked-both-ways-running-wrapped-of-the-job-in-the-window'
 
 
 # ---------------------------------------------------------------- _tidy_tasks
+def mine_task(jst, S, st, t):
+    """t runs the body or the shutdown handler of a member of S (only S's activations create or cancel it)"""
+    return Or(member(jst, S, st.f('$wjob', t)), member(jst, S, st.f('$sd_of', t)))
+
+
+def local_sets_unchanged(old, new, S):
+    """containers of S and of its direct members, and local (role-less) containers, keep their contents"""
+    s = q()
+    own = old.f('$setowner', s)
+    role = old.f('$setrole', s)
+    return ForAll([s], Implies(And(old.alive(s), Or(role == 0, own == S, member(old, S, own))),
+                               And(new.elems(s) == old.elems(s), new.f('$setrole', s) == role,
+                                   new.f('$setowner', s) == own)), patterns=[new.elems(s)])
+
+
+def no_new_task_of(old, new, S):
+    """no task running a body or a shutdown handler of a member of S has appeared"""
+    t = q()
+    return ForAll([t], Implies(And(Not(old.alive(t)), new.alive(t), isa['Task'](t)),
+                               Not(mine_task(old, S, new, t))), patterns=[new.f('$wjob', t)])
+
+
+def sched_frame(old, new, S):
+    """what no activation of S changes behind its own back: the member set object and the ghost links of
+    the tasks that already exist"""
+    t = q()
+    return And(new.f('jobs', S) == old.f('jobs', S),
+               ForAll([t], Implies(old.alive(t), And(new.f('$wjob', t) == old.f('$wjob', t),
+                                                     new.f('$sd_of', t) == old.f('$sd_of', t))),
+                      patterns=[new.f('$wjob', t)]),
+               ForAll([t], Implies(old.alive(t), new.f('$sd_of', t) == old.f('$sd_of', t)),
+                      patterns=[new.f('$sd_of', t)]))
+
+
 def all_tasks(st, S):
     x = q()
     return ForAll([x], Implies(Select(S, x), And(isa['Task'](x), st.alive(x), x != NONE)), patterns=[Select(S, x)])
@@ -138,17 +172,16 @@ c = contract('PureScheduler._tidy_tasks', F).param('self').param('pending', 'set
 c.for_props('C05', 'C08', 'C09', 'C11', 'C13')
 c.is_async = True
 c.ghost_init = init_vt
-c.rely_fields = TASK_RELY_FIELDS + ['$cancel_req', '$cancel_vt']
-c.rely = lambda c: std_rely(c) + [
-    # nobody withdraws a cancellation request
-    (lambda t: ForAll([t], Implies(c.before.f('$cancel_req', t), c.cur.f('$cancel_req', t)),
-                      patterns=[c.cur.f('$cancel_req', t)]))(q()),
-    (lambda t: ForAll([t], Implies(c.before.f('$cancel_req', t),
-                                   c.cur.f('$cancel_vt', t) == c.before.f('$cancel_vt', t)),
-                      patterns=[c.cur.f('$cancel_vt', t)]))(q())]
+c.rely_fields = None      # set below: the rely of every activation of the scheduler (sched_rely)
 c.requires('state-constants', lambda c: And(state_consts_facts()))
+c.requires('self-is-scheduler', lambda c: is_sched(c.a.self))
 c.requires('elements-are-tasks', lambda c: all_tasks(c.pre, c.pre.elems(c.a.pending)))
+c.requires('elements-are-tasks-of-this-scheduler', lambda c: (lambda x: ForAll([x], Implies(
+    c.pre.mem(c.a.pending, x), mine_task(c.pre, c.a.self, c.pre, x)), patterns=[c.pre.mem(c.a.pending, x)]))(q()))
+c.requires('local-wait-set', lambda c: c.pre.f('$setrole', c.a.pending) == 0)
 c.modifies('$cancel_req', '$cancel_vt', '$alive', '$elems')
+c.store_guard = lambda c, field, obj, val: z3.BoolVal(False)
+TIDY = c
 
 
 def _tidy_cancelled_all(c):
@@ -164,13 +197,36 @@ def _tidy_cancelled_all(c):
 c.ensures('no-element-left-pending', lambda c: none_pending(c.cur, c.pre.elems(c.a.pending)),
           props=['C11', 'C05', 'C08', 'C09'])
 c.ensures('every-pending-element-cancelled-at-once', _tidy_cancelled_all, props=['C05', 'C08', 'C09'])
-c.ensures('frame[elems]', lambda c: old_sets_unchanged(c.pre, c.cur))
-c.ensures('creates-no-task', lambda c: allocates_only(c.pre, c.cur, 'set', 'CancelledError'))
-c.raises('CancelledError', 'creates-no-task', lambda c: allocates_only(c.pre, c.cur, 'set', 'CancelledError'))
+def _tidy_frame_cancel(c):
+    """cancellation is requested for elements of the argument only"""
+    x = q()
+    P = c.pre.elems(c.a.pending)
+    return And(ForAll([x], Implies(Not(Select(P, x)),
+                                   And(c.cur.f('$cancel_req', x) == c.pre.f('$cancel_req', x),
+                                       c.cur.f('$cancel_vt', x) == c.pre.f('$cancel_vt', x))),
+                      patterns=[c.cur.f('$cancel_req', x)]),
+               ForAll([x], Implies(c.pre.f('$cancel_req', x), c.cur.f('$cancel_req', x)),
+                      patterns=[c.cur.f('$cancel_req', x)]))
+
+
+def roles_unchanged(old, new):
+    o = q()
+    return ForAll([o], Implies(old.alive(o), And(new.f('$setrole', o) == old.f('$setrole', o),
+                                                 new.f('$setowner', o) == old.f('$setowner', o))),
+                  patterns=[new.f('$setrole', o)])
+
+
+c.ensures('frame[elems]', lambda c: local_sets_unchanged(c.pre, c.cur, c.a.self))
+c.ensures('frame[cancel]', _tidy_frame_cancel)
+c.ensures('creates-no-task', lambda c: no_new_task_of(c.pre, c.cur, c.a.self))
+c.ensures('scheduler-frame', lambda c: sched_frame(c.pre, c.cur, c.a.self))
+c.raises('CancelledError', 'creates-no-task', lambda c: no_new_task_of(c.pre, c.cur, c.a.self))
+c.raises('CancelledError', 'scheduler-frame', lambda c: sched_frame(c.pre, c.cur, c.a.self))
+c.raises('CancelledError', 'frame[cancel]', _tidy_frame_cancel)
 c.raises('CancelledError', 'no-element-left-pending', lambda c: none_pending(c.cur, c.pre.elems(c.a.pending)),
          props=['C11'])
 c.raises('CancelledError', 'every-pending-element-cancelled-at-once', _tidy_cancelled_all, props=['C05', 'C08', 'C09'])
-c.raises('CancelledError', 'frame[elems]', lambda c: old_sets_unchanged(c.pre, c.cur))
+c.raises('CancelledError', 'frame[elems]', lambda c: local_sets_unchanged(c.pre, c.cur, c.a.self))
 
 
 def _tidy_loop0(c):
@@ -185,6 +241,8 @@ def _tidy_loop0(c):
                                      patterns=[c.cur.f('$cancel_req', x)])),
         ('clock-still', vt(c.cur) == vt(c.pre)),
         ('states-still', And(c.cur.H('_state') == c.pre.H('_state'))),
+        ('never-withdrawn', ForAll([x], Implies(c.pre.f('$cancel_req', x), c.cur.f('$cancel_req', x)),
+                                   patterns=[c.cur.f('$cancel_req', x)])),
         ('unvisited-untouched', ForAll([x], Implies(Not(Select(c.visited, x)), And(
             c.cur.f('$cancel_req', x) == c.pre.f('$cancel_req', x),
             c.cur.f('$cancel_vt', x) == c.pre.f('$cancel_vt', x))), patterns=[c.cur.f('$cancel_req', x)])),
@@ -204,9 +262,15 @@ def _tidy_loop1(c):
                                         patterns=[c.cur.f('$cancel_req', x)])),
         ('pending-set-unchanged', c.cur.elems(c.a.pending) == P),
         ('remembered-cancellation', Or(canc == NONE, isa['CancelledError'](canc))),
-        ('frame[elems]', old_sets_unchanged(c.pre, c.cur)),
+        ('frame[elems]', local_sets_unchanged(c.pre, c.cur, c.a.self)),
+        ('frame[cancel]', _tidy_frame_cancel(c)),
         ('clock-monotone', vt(c.cur) >= vt(c.pre)),
-        ('creates-no-task', allocates_only(c.pre, c.cur, 'set', 'CancelledError')),
+        ('creates-no-task', no_new_task_of(c.pre, c.cur, c.a.self)),
+        ('wait-set-still-local', And(c.cur.f('$setrole', c.a.pending) == 0, c.cur.alive(c.a.pending))),
+        ('elements-still-tasks-of-this-scheduler', And(all_tasks(c.cur, P), ForAll([x], Implies(
+            Select(P, x), mine_task(c.pre, c.a.self, c.cur, x)), patterns=[Select(P, x)]))),
+        ('scheduler-frame', sched_frame(c.pre, c.cur, c.a.self)),
+        ('roles-unchanged', roles_unchanged(c.pre, c.cur)),
     ]
 
 
@@ -214,9 +278,11 @@ def _cl(fn, labels, key):
     return [(lab, (lambda lab: lambda c: dict(c.memo(key, lambda: fn(c)))[lab])(lab)) for lab in labels]
 
 
-c.loop(0, inv=_cl(_tidy_loop0, ['visited-cancelled', 'clock-still', 'states-still', 'unvisited-untouched'], 't0'))
+c.loop(0, inv=_cl(_tidy_loop0, ['visited-cancelled', 'clock-still', 'states-still', 'never-withdrawn', 'unvisited-untouched'], 't0'))
 c.loop(1, inv=_cl(_tidy_loop1, ['all-cancel-requested', 'pending-set-unchanged', 'remembered-cancellation',
-                                'frame[elems]', 'clock-monotone', 'creates-no-task'], 't1'))
+                                'frame[elems]', 'frame[cancel]', 'clock-monotone', 'creates-no-task',
+                                'wait-set-still-local', 'elements-still-tasks-of-this-scheduler',
+                                'scheduler-frame', 'roles-unchanged'], 't1'))
 
 
 # ---------------------------------------------------------------- _tidy_tasks_exception
@@ -224,22 +290,35 @@ c = contract('PureScheduler._tidy_tasks_exception', F).param('self').param('task
 c.for_props('C05', 'C06', 'C11')
 c.is_async = True
 c.ghost_init = init_vt
-c.rely_fields = TASK_RELY_FIELDS + ['$cancel_req', '$cancel_vt']
-c.rely = lambda c: std_rely(c) + [c.cur.H('$cancel_req') == c.before.H('$cancel_req'),
-                                  c.cur.H('$cancel_vt') == c.before.H('$cancel_vt')]
+c.rely_fields = None
 c.requires('state-constants', lambda c: And(state_consts_facts()))
+c.requires('self-is-scheduler', lambda c: is_sched(c.a.self))
 c.requires('elements-are-tasks', lambda c: all_tasks(c.pre, c.pre.elems(c.a.tasks)))
 c.requires('all-finished', lambda c: none_pending(c.pre, c.pre.elems(c.a.tasks)))
+c.requires('local-set', lambda c: c.pre.f('$setrole', c.a.tasks) == 0)
 c.modifies('$alive', '$elems', '$llen', '$lat', '$cancel_req', '$cancel_vt')
+c.store_guard = lambda c, field, obj, val: z3.BoolVal(False)
+TIDYX = c
+
+
+def _tidyx_no_cancel(c):
+    """it requests no cancellation that has an effect: requests on this scheduler's tasks are as before"""
+    x = q()
+    return ForAll([x], Implies(And(c.pre.alive(x), mine_task(c.pre, c.a.self, c.pre, x)),
+                               And(c.cur.f('$cancel_req', x) == c.pre.f('$cancel_req', x),
+                                   c.cur.f('$cancel_vt', x) == c.pre.f('$cancel_vt', x))),
+                  patterns=[c.cur.f('$cancel_req', x)])
+
+
 c.ensures('zero-time', lambda c: vt(c.cur) == vt(c.pre), props=['C05', 'C06'])
-c.ensures('no-cancellation-requested', lambda c: And(c.cur.H('$cancel_req') == c.pre.H('$cancel_req'),
-                                                     c.cur.H('$cancel_vt') == c.pre.H('$cancel_vt')))
-c.ensures('frame[elems]', lambda c: old_sets_unchanged(c.pre, c.cur))
-c.ensures('creates-no-task', lambda c: allocates_only(c.pre, c.cur, 'set', 'list', 'tuple', 'CancelledError'))
-c.raises('CancelledError', 'creates-no-task', lambda c: allocates_only(c.pre, c.cur, 'set', 'list', 'tuple', 'CancelledError'))
-c.raises('CancelledError', 'no-cancellation-requested', lambda c: And(
-    c.cur.H('$cancel_req') == c.pre.H('$cancel_req'), c.cur.H('$cancel_vt') == c.pre.H('$cancel_vt')))
-c.raises('CancelledError', 'frame[elems]', lambda c: old_sets_unchanged(c.pre, c.cur))
+c.ensures('no-cancellation-requested', _tidyx_no_cancel)
+c.ensures('frame[elems]', lambda c: local_sets_unchanged(c.pre, c.cur, c.a.self))
+c.ensures('creates-no-task', lambda c: no_new_task_of(c.pre, c.cur, c.a.self))
+c.ensures('scheduler-frame', lambda c: sched_frame(c.pre, c.cur, c.a.self))
+c.raises('CancelledError', 'creates-no-task', lambda c: no_new_task_of(c.pre, c.cur, c.a.self))
+c.raises('CancelledError', 'scheduler-frame', lambda c: sched_frame(c.pre, c.cur, c.a.self))
+c.raises('CancelledError', 'no-cancellation-requested', _tidyx_no_cancel)
+c.raises('CancelledError', 'frame[elems]', lambda c: local_sets_unchanged(c.pre, c.cur, c.a.self))
 c.loop(0, inv=[
     ('nothing-requested', lambda c: And(c.cur.H('$cancel_req') == c.pre.H('$cancel_req'),
                                         c.cur.H('$cancel_vt') == c.pre.H('$cancel_vt'))),
@@ -256,67 +335,31 @@ c.assumed = ['E9: co_shutdown() of an atomic job returns or raises; behaviour wh
 
 
 # ---------------------------------------------------------------- the rely of a scheduler activation
-SCHED_RELY_FIELDS = ['_state', '_exception', '_result', '$finished_vt', '_running', '$cancel_req', '$cancel_vt',
-                     '$alive', '$shut', '$sd_of', '$wjob', '$twin', '$created_vt', '_job', '_task',
-                     '_did_shutdown', '_expiration', '_failed_critical', '_failed_timeout', '_sched_id', '_s_mark',
-                     '_s_successors', '$elems', '$setowner', '$setrole', '$llen', '$lat', 'queue', '$qmax',
-                     '$ycount', '$ypos']
+SCHED_RELY_FIELDS = ['_state', '_exception', '_result', '$finished_vt', '_running']
 
 
 def sched_rely(c):
-    """DESIGN 4.4, R1-R4, for an activation (co_run or co_shutdown) of scheduler S = self.
-    What the other coroutines may NOT have changed when control comes back from a suspension."""
-    S = c.a.self
+    """The rely of an activation (co_run, co_shutdown, _tidy_*) of scheduler S (DESIGN 4.4).
+
+    Shared with the other coroutines, and therefore havoced at every suspension and constrained here:
+      R1  the life cycle of the tasks (E3) and the clock;
+      R2  `_running` of a job goes from False to True only (it is written by that job's `wrapped`).
+    Everything else this activation reads -- its own attributes, those of its direct members, the
+    containers they hold, its local containers, the ghost links of the tasks it created -- is its
+    FOOTPRINT: by R3/R4 (the guarantee of every other activation, proved as `guarantee[store ..]`
+    obligations, plus A-NO-TAMPER for job bodies) nobody else writes it.  State outside the footprint is
+    never read by this activation's code or contracts, so it is modelled as unchanged (frame rule)."""
     b, a = c.before, c.cur
     a.g['$vt'] = fresh('vt', L.R)
-    m, t, s, o = q(4)
-    Jb = J(b, S)
-    mine_task = lambda st, x: Or(Select(Jb, st.f('$wjob', x)), Select(Jb, st.f('$sd_of', x)))
+    m = q()
     out = task_rely(b, a) + clock_rely(b, a)
-    # nothing is deallocated
-    out.append(ForAll([o], Implies(b.alive(o), a.alive(o)), patterns=[a.alive(o)]))
-    # R3: the scheduler's own attributes, and those of its direct members
-    for f in ('_did_shutdown', '_expiration', '_failed_critical', '_failed_timeout'):
-        out.append(a.f(f, S) == b.f(f, S))
-    out.append(ForAll([m], Implies(Select(Jb, m), And(a.f('_task', m) == b.f('_task', m),
-                                                      a.f('_s_successors', m) == b.f('_s_successors', m),
-                                                      a.f('$shut', m) == b.f('$shut', m))),
-                      patterns=[a.f('_task', m)]))
-    out.append(ForAll([m], Implies(Select(Jb, m), a.f('_s_successors', m) == b.f('_s_successors', m)),
-                      patterns=[a.f('_s_successors', m)]))
-    out.append(ForAll([m], Implies(Select(Jb, m), a.f('$shut', m) == b.f('$shut', m)),
-                      patterns=[a.f('$shut', m)]))
-    # R2: _running only goes from False to True, and only for a job that has its task
     out.append(ForAll([m], Implies(b.f('_running', m), a.f('_running', m)), patterns=[a.f('_running', m)]))
-    # container objects of the scheduler and of its direct members, and local (role-less) containers
-    own = b.f('$setowner', s)
-    role = b.f('$setrole', s)
-    out.append(ForAll([s], Implies(And(b.alive(s), Or(role == 0, own == S, Select(Jb, own))),
-                                   And(a.elems(s) == b.elems(s), a.f('$setrole', s) == role,
-                                       a.f('$setowner', s) == own)),
-                      patterns=[a.elems(s)]))
-    out.append(ForAll([s], Implies(b.alive(s), And(a.llen(s) == b.llen(s),
-                                                   Select(a.H('$lat'), s) == Select(b.H('$lat'), s))),
-                      patterns=[a.llen(s)]))
-    # R4: tasks of this scheduler are created, linked and cancelled by this scheduler only
-    out.append(ForAll([t], Implies(b.alive(t), And(a.f('$wjob', t) == b.f('$wjob', t),
-                                                   a.f('$sd_of', t) == b.f('$sd_of', t),
-                                                   a.f('$twin', t) == b.f('$twin', t),
-                                                   a.f('_job', t) == b.f('_job', t),
-                                                   a.f('$created_vt', t) == b.f('$created_vt', t))),
-                      patterns=[a.f('$wjob', t)]))
-    out.append(ForAll([t], Implies(b.alive(t), a.f('_job', t) == b.f('_job', t)), patterns=[a.f('_job', t)]))
-    out.append(ForAll([t], Implies(b.alive(t), a.f('$sd_of', t) == b.f('$sd_of', t)), patterns=[a.f('$sd_of', t)]))
-    out.append(ForAll([t], Implies(And(Not(b.alive(t)), a.alive(t), isa['Task'](t)), Not(mine_task(a, t))),
-                      patterns=[a.f('$wjob', t)]))
-    out.append(ForAll([t], Implies(And(b.alive(t), mine_task(b, t)),
-                                   And(a.f('$cancel_req', t) == b.f('$cancel_req', t),
-                                       a.f('$cancel_vt', t) == b.f('$cancel_vt', t))),
-                      patterns=[a.f('$cancel_req', t)]))
-    # the window queue of this activation, if any, keeps its size bound
-    out.append(ForAll([o], Implies(b.alive(o), a.f('queue', o) == b.f('queue', o)), patterns=[a.f('queue', o)]))
-    out.append(ForAll([o], Implies(b.alive(o), a.f('$qmax', o) == b.f('$qmax', o)), patterns=[a.f('$qmax', o)]))
     return out
+
+
+for _c in (TIDY, TIDYX):
+    _c.rely_fields = SCHED_RELY_FIELDS
+    _c.rely = sched_rely
 
 
 # ---------------------------------------------------------------- co_shutdown
@@ -382,6 +425,30 @@ def _sd_new_tasks(c):
                                Not(member(c.pre, S, c.cur.f('$wjob', t)))), patterns=[c.cur.f('$wjob', t)])
 
 
+def _sd_frame(c):
+    """frame of co_shutdown relative to its rely: tasks that existed keep their life cycle and ghost links,
+    body tasks of this scheduler are not cancelled, local and owned containers are untouched"""
+    S = c.a.self
+    pre, cur = c.pre, c.cur
+    t = q()
+    saved = cur.g.get('$vt')
+    out = task_rely(pre, cur, only_alive=True) + [
+        sched_frame(pre, cur, S),
+        local_sets_unchanged(pre, cur, S),
+        ForAll([t], Implies(And(pre.alive(t), member(pre, S, pre.f('$wjob', t))),
+                            And(cur.f('$cancel_req', t) == pre.f('$cancel_req', t),
+                                cur.f('$cancel_vt', t) == pre.f('$cancel_vt', t))),
+               patterns=[cur.f('$cancel_req', t)]),
+        ForAll([t], Implies(pre.alive(t), And(cur.f('_job', t) == pre.f('_job', t),
+                                              cur.f('$twin', t) == pre.f('$twin', t))),
+               patterns=[cur.f('_job', t)]),
+        vt(cur) >= vt(pre),
+    ]
+    return And(out)
+
+
+c.ensures('frame', _sd_frame)
+c.raises('CancelledError', 'frame', _sd_frame)
 c.ensures('new-tasks-run-no-member-body', _sd_new_tasks)
 c.raises('CancelledError', 'new-tasks-run-no-member-body', _sd_new_tasks)
 c.ensures('a-later-call-sends-nothing-and-returns-True', _sd_once, props=['C13'])
@@ -424,12 +491,14 @@ def _sd_loop(c):
         ('new-tasks-run-no-member-body', ForAll([t], Implies(
             And(Not(c.pre.alive(t)), c.cur.alive(t), isa['Task'](t)), c.cur.f('$wjob', t) == NONE),
             patterns=[c.cur.f('$wjob', t)])),
+        ('frame', _sd_frame(c)),
     ]
 
 
 _SDL = ['visited-members-have-one-more', 'list-holds-fresh-shutdown-tasks-of-visited-members',
         'list-elements-distinct', 'no-cancellation-yet',
-        'list-fresh', 'did-shutdown-set', 'jobs-unchanged', 'clock-still', 'new-tasks-run-no-member-body']
+        'list-fresh', 'did-shutdown-set', 'jobs-unchanged', 'clock-still', 'new-tasks-run-no-member-body',
+        'frame']
 c.loop(0, inv=_cl(_sd_loop, _SDL, 'sdl'))
 
 
